@@ -1093,6 +1093,10 @@ class TwoDSpectrumBase(DataSaveable):
             identify the pathway
             
         """
+        # the spectrum keeps its own copy; what the caller does with 
+        # the submitted array later must not change the stored data
+        data = numpy.array(data)
+        
         if not self.storage_initialized:
             self._d__data = {}
             self.storage_initialized =  True
